@@ -30,7 +30,7 @@ MANIFEST = {
             "included) compares the two filters with a reference evaluator.",
     "note": "Trusted: incremental_expansion_license (proved under C12), dnf_solutions (C06), collapsed_restrict_to_data.pull_data "
             "(abstract: yields the allowed set), atom.match (C04), restriction constructors; keywords are non-empty strings; pyvc "
-            "encoder.  Not claimed: parsing of the configuration files into these entries, apply_mask_filter's atom lookup.",
+            "encoder.  Not claimed: parsing of the configuration files into these entries (which files are read is covered by a small enumeration of _read_config_file).  The mask lookup (make_mask_filter / apply_mask_filter) is covered by a bounded enumeration over mask / unmask selections on real atoms and globs.",
 }
 ASSUMPTIONS = ["keywords are non-empty strings", "incremental_expansion_license returns the expansion of its token list (C12)",
                "pull_data(pkg) returns the allowed keyword set for the package (collapsed_restrict_to_data, not under contract here)"]
@@ -465,6 +465,164 @@ def enum_filters(seed):
             "cases": cases, "failures": fails}
 
 
+def enum_masks(seed):
+    """the mask half on real objects: generate_filter / make_mask_filter / apply_mask_filter over every selection of <= 3 masks and <= 2 unmasks
+    from a pool of atoms (bare, slot- and repository-qualified, versioned, ranges) and globs, on a 7-package universe: a package passes exactly
+    when no mask matches it or some unmask does"""
+    from pkgcore.ebuild.atom import atom
+    from pkgcore.ebuild.domain import generate_filter
+    from pkgcore.test.misc import FakePkg
+    from pkgcore.util.parserestrict import parse_match
+    repo_g, repo_o = types.SimpleNamespace(repo_id="gentoo"), types.SimpleNamespace(repo_id="overlay")
+    pkgs = [FakePkg("a/b-1.0", slot="0", repo=repo_g), FakePkg("a/b-1.1", slot="2", repo=repo_g), FakePkg("a/b-2.0", slot="2", repo=repo_g), FakePkg("a/b-3.0", slot="3", repo=repo_o),
+            FakePkg("a/c-1.0", slot="0", repo=repo_g), FakePkg("a/c-2.0", slot="2", repo=repo_o), FakePkg("z/b-1.0", slot="0", repo=repo_g)]
+    pool = ["a/b", "a/b:2", "a/b:0", "a/b::overlay", "=a/b-1.0", "=a/b-1.1", ">=a/b-2.0", "<a/b-1.1", "~a/b-3.0", "a/c", "a/c:2", "=a/c-1.0", "a/*", "*/b"]
+    objs = {t: (parse_match(t) if "*" in t else atom(t)) for t in pool}
+    fails, cases = [], 0
+    sel_m = [c for k in (1, 2, 3) for c in itertools.combinations(pool, k) if len({x.split(":")[0].lstrip("=<>~").rsplit("-", 1)[0] for x in c}) <= 2]
+    sel_u = [()] + [c for k in (1, 2) for c in itertools.combinations(pool[:12], k) if len({x.split(":")[0].lstrip("=<>~").rsplit("-", 1)[0] for x in c}) == 1]
+    for masks in sel_m:
+        for unmasks in sel_u:
+            cases += 1
+            try:
+                flt = generate_filter([objs[m] for m in masks], [objs[u] for u in unmasks])
+                got = [bool(flt.match(p)) for p in pkgs]
+            except Exception as e:
+                if len(fails) < 4:
+                    fails.append({"model": {"masks": list(masks), "unmasks": list(unmasks)}, "detail": f"generate_filter(masks={list(masks)}, unmasks={list(unmasks)}) raised {type(e).__name__}: {e}"})
+                continue
+            want = [not any(objs[m].match(p) for m in masks) or any(objs[u].match(p) for u in unmasks) for p in pkgs]
+            if got != want and len(fails) < 4:
+                i = next(i for i in range(len(pkgs)) if got[i] != want[i])
+                fails.append({"model": {"masks": list(masks), "unmasks": list(unmasks), "package": f"{pkgs[i].cpvstr}:{pkgs[i].slot}::{pkgs[i].repo.repo_id}"},
+                              "detail": f"masks {list(masks)}, unmasks {list(unmasks)}: {pkgs[i].cpvstr} (slot {pkgs[i].slot}, repository {pkgs[i].repo.repo_id}) is {'visible' if got[i] else 'hidden'}; "
+                                        f"it is {'not ' if not any(objs[m].match(pkgs[i]) for m in masks) else ''}masked and {'not ' if not any(objs[u].match(pkgs[i]) for u in unmasks) else ''}unmasked"})
+    return {"name": "C13.masks.bounded_enumeration", "bound": f"{len(sel_m)} selections of <= 3 masks x {len(sel_u)} selections of <= 2 unmasks from {len(pool)} atoms / globs (bare, :slot, ::repository, =, ranges, ~) through the real generate_filter, 7 packages in 4 slots and 2 repositories",
+            "cases": cases, "failures": fails}
+
+
+def enum_config_files(seed):
+    """where the mask / keyword / license entries come from: _read_config_file on a package.* file or directory, with the configuration
+    directory in an ordinary place and below a directory whose name starts with a dot (~/.config/...): every line of every file that is
+    not itself hidden (a dot name below the given path) is read, in the sorted order of the files"""
+    import shutil
+    import tempfile
+    from pkgcore.ebuild.domain import _read_config_file
+    scratch = tempfile.mkdtemp(prefix="c13.", dir=os.environ.get("PYVC_SCRATCH", "/var/tmp"))
+    fails, cases = [], 0
+    try:
+        for where in ("conf", ".config/pkgcore", "a/.b/c"):
+            base = os.path.join(scratch, where)
+            for form in ("file", "directory"):
+                path = os.path.join(base, f"package.mask.{form}")
+                want = []
+                if form == "file":
+                    os.makedirs(base, exist_ok=True)
+                    open(path, "w").write("cat/a\n# comment\ncat/b\n")
+                    want = ["cat/a", "cat/b"]
+                else:
+                    for rel, text, hidden in (("00first", "cat/a\n", False), ("50/nested", "cat/n\n", False), ("99last", "cat/z\n", False), (".hidden", "cat/h\n", True), (".git/config", "cat/g\n", True), ("50/.swp", "cat/s\n", True)):
+                        os.makedirs(os.path.dirname(os.path.join(path, rel)), exist_ok=True)
+                        open(os.path.join(path, rel), "w").write(text)
+                        if not hidden:
+                            want.append(text.strip())
+                cases += 1
+                try:
+                    got = [line for line, _no, _loc in _read_config_file(path)]
+                except Exception as e:
+                    got = f"{type(e).__name__}: {e}"
+                if got != want and len(fails) < 4:
+                    fails.append({"model": {"configuration_directory": where, "form": form}, "detail": f"_read_config_file on a package.mask {form} below <scratch>/{where}: read {got}, the entries are {want}"})
+    finally:
+        shutil.rmtree(scratch, ignore_errors=True)
+    return {"name": "C13.config_files.bounded_enumeration", "bound": "a package.mask file and a package.mask directory (3 visible files on two levels, 3 hidden ones) below 3 configuration directories (plain, below a dot directory, below a nested dot directory)",
+            "cases": cases, "failures": fails}
+
+
+def enum_config_entries(seed):
+    """from the line in package.license / package.accept_keywords to the decision: the real loaders (domain.pkg_licenses, domain.pkg_accept_keywords)
+    read a one-line file, the real filters decide on a package; the reference processes the tokens as written, left to right.  Lines repeat a
+    token with its negation (or a wildcard) in between -- the last occurrence decides"""
+    import shutil
+    import tempfile
+    from pkgcore.ebuild.domain import domain
+    scratch = tempfile.mkdtemp(prefix="c13e.", dir=os.environ.get("PYVC_SCRATCH", "/var/tmp"))
+    fails, cases = [], 0
+    groups = {"FREE": {"GPL", "MIT"}, "EULA": {"Vendor"}}
+    lic_lines = ["MIT", "MIT -MIT", "MIT -MIT MIT", "-MIT MIT -MIT", "MIT MIT", "* -MIT *", "-* MIT -*", "@FREE -MIT @FREE", "@FREE -@FREE MIT", "MIT -* MIT", "-MIT * -MIT"]
+    kw_lines = ["~amd64", "~amd64 -~amd64", "~amd64 -~amd64 ~amd64", "-~amd64 ~amd64 -~amd64", "~amd64 -* ~amd64", "-* ~amd64 -*", "** -** **", "~* -~* ~*"]
+    load = lambda name, fake: domain.__dict__[name].function(fake)
+    try:
+        for i, toks in enumerate(lic_lines):
+            d = os.path.join(scratch, f"l{i}")
+            os.makedirs(d)
+            open(os.path.join(d, "package.license"), "w").write(f"a/b {toks}\n")
+            fake = types.SimpleNamespace(root="/", config_dir=d, _default_licenses_manager=None)
+            cases += 1
+            try:
+                fake.pkg_licenses = load("pkg_licenses", fake)
+                pkg = _fake_pkg("a/b-1", ("amd64",), "MIT")
+                got = bool(domain._apply_license_filter(fake, [], pkg, "match"))
+            except Exception as e:
+                got = f"{type(e).__name__}: {e}"
+            want = "MIT" in ref_expand(toks.split(), {"MIT"}, groups)
+            if got != want and len(fails) < 4:
+                fails.append({"model": {"file": "package.license", "line": f"a/b {toks}"}, "detail": f"package.license line 'a/b {toks}', LICENSE=MIT, empty ACCEPT_LICENSE: the package is {'visible' if got is True else 'hidden' if got is False else got}; "
+                                                                                          f"read left to right the line {'accepts' if want else 'does not accept'} MIT"})
+        for i, toks in enumerate(kw_lines):
+            d = os.path.join(scratch, f"k{i}")
+            os.makedirs(d)
+            open(os.path.join(d, "package.accept_keywords"), "w").write(f"a/b {toks}\n")
+            fake = types.SimpleNamespace(root="/", config_dir=d, unstable_arch="~amd64", profile=types.SimpleNamespace(keywords=()))
+            fake._apply_keywords_filter = types.MethodType(domain._apply_keywords_filter, fake)
+            cases += 1
+            try:
+                entries = load("pkg_accept_keywords", fake)
+                restrict = domain._make_keywords_filter(fake, {"amd64"}, entries)
+                got = bool(restrict.match(_fake_pkg("a/b-1", ("~amd64",), "MIT")))
+            except Exception as e:
+                got = f"{type(e).__name__}: {e}"
+            allowed = {"amd64"}
+            for t in toks.split():
+                if t == "-*":
+                    allowed.clear()
+                elif t[0] == "-":
+                    allowed.discard(t[1:])
+                else:
+                    allowed.add(t)
+            want = bool({"~amd64", "**", "~*"} & allowed)
+            if got != want and len(fails) < 4:
+                fails.append({"model": {"file": "package.accept_keywords", "line": f"a/b {toks}"}, "detail": f"package.accept_keywords line 'a/b {toks}' on a stable amd64 system, KEYWORDS=~amd64: the package is "
+                                                                                                   f"{'visible' if got is True else 'hidden' if got is False else got}; read left to right the line leaves {sorted(allowed)} accepted"})
+        # the profile's package.keywords lines go through the profile's own splitter
+        from pkgcore.ebuild.profiles import ProfileNode
+
+        def expand(tokens):
+            acc = set()
+            for t in tokens:
+                if t == "-*":
+                    acc.clear()
+                elif t[0] == "-":
+                    acc.discard(t[1:])
+                else:
+                    acc.add(t)
+            return acc
+        for toks in kw_lines:
+            cases += 1
+            try:
+                (_a, loaded), = list(ProfileNode._package_keywords_splitter(None, [(f"a/b {toks}", 1, "package.keywords")]))
+                got = expand(loaded)
+            except Exception as e:
+                got = f"{type(e).__name__}: {e}"
+            if got != expand(toks.split()) and len(fails) < 4:
+                fails.append({"model": {"file": "profile package.keywords", "line": f"a/b {toks}"}, "detail": f"profile package.keywords line 'a/b {toks}' is stored as tokens that expand to {got}; "
+                                                                                                    f"read left to right the line gives {sorted(expand(toks.split()))}"})
+    finally:
+        shutil.rmtree(scratch, ignore_errors=True)
+    return {"name": "C13.config_entries.bounded_enumeration", "bound": f"{len(lic_lines)} package.license lines and {len(kw_lines)} package.accept_keywords lines with repeated tokens, read by the real loaders and decided by the real filters for one package; the same keyword lines through the profile's package.keywords splitter",
+            "cases": cases, "failures": fails}
+
+
 def enum_license_groups(seed):
     """the @group table the license filter works with, as the repository reads it from profiles/license_groups: groups that name other groups
     (up to three levels, a group naming two others), the lines in every order -- each group comes out as the licenses it reaches"""
@@ -513,6 +671,9 @@ def tasks():
         Task("C13._apply_keywords_filter", t_keywords, [(FILE, "domain._apply_keywords_filter")], fallback={"unroll": 2}),
         Task("C13._make_keywords_filter", t_empty_entry, [(FILE, "domain._make_keywords_filter")]),
         Task("C13.generate_filter", t_generate, [(FILE, "generate_filter")]),
+        Task("C13.config_files", None, [(FILE, "_read_config_file")], enumerate=enum_config_files),
+        Task("C13.config_entries", None, [(FILE, "domain.pkg_licenses"), (FILE, "domain.pkg_accept_keywords"), ("src/pkgcore/ebuild/profiles.py", "ProfileNode._package_keywords_splitter")], enumerate=enum_config_entries),
+        Task("C13.masks", None, [(FILE, "make_mask_filter"), (FILE, "apply_mask_filter"), (FILE, "generate_filter")], enumerate=enum_masks),
         Task("C13.filter_repo", t_masks, [(FILE, "domain.filter_repo")], bounded={"profile mask layers": 2, "profile unmask layers": 2, "note": "sets unbounded"}),
     ]
 
